@@ -106,6 +106,8 @@ def classify(msg):
         return "use_after_free"
     if "uninitialized" in m:
         return "uninitialized"
+    if "invalid value" in m or "invalid enum" in m or "invalid char" in m:
+        return "invalid_value"
     if "`assume` called with `false`" in m or "unchecked" in m or "unreachable" in m:
         return "violated_unchecked_precondition"
     return "other"
